@@ -69,7 +69,15 @@ def ts_to_date(timestamp):
 # Converts date to timestamp of the midnight in seconds, in the given timezone, or UTC by default.
 def date_to_ts(date, timezone=None):
   ts = (date - DATE_EPOCH).total_seconds()
-  return ts if not timezone else ts - timezone.offset(ts * 1000).total_seconds()
+  if not timezone:
+    return ts
+  # Local midnight is at (ts - offset), for the offset in effect at that instant. That may differ
+  # from the offset at UTC midnight (ts) when the zone's offset changes between the two, so try the
+  # offsets in effect around that time, and keep those that are consistent with the result.
+  offsets = {timezone.offset((ts + delta) * 1000).total_seconds() for delta in (-86400, 0, 86400)}
+  exact = [ts - o for o in offsets if timezone.offset((ts - o) * 1000).total_seconds() == o]
+  # If local midnight is ambiguous, take the earlier one; if skipped, the first moment of the date.
+  return min(exact) if exact else ts - min(offsets)
 
 # Parses a datetime in the ISO format, YYYY-MM-DDTHH:MM:SS.mmmmmm+HH:MM. Most parts are optional;
 # see https://pypi.org/project/iso8601/ for details. Returns a timestamp in seconds.
